@@ -1,7 +1,72 @@
-//! Correspondence harness of property C17 (stub).
-use mzkh::Ctx;
+//! Correspondence harness of property C17: key generation is deterministic and keys survive
+//! serialisation unchanged.
+//!
+//! Correspondence lines (model = Lean `MidnightZK.C17`):
+//!   `vkparse <shape> <hex>`      real vk byte image (and structural variants) parsed by the
+//!                                model's `readVK`; impl = the real object's parts / real reader;
+//!   `trepr <shape> <raw> <desc>` transcript identity recomputed by the model (BLAKE2b);
+//!   `perm t=.. copies=..`        `Assembly::copy` + `build_pk` on the recorded copies against
+//!                                the permutation polynomials inside the real pk bytes;
+//!   `commit k s values`          scalar `p(s)` whose multiple of G is the real commitment;
+//!   `lagrange via=setup|downsize` Lagrange-basis scalars of `unsafe_setup` / `downsize`;
+//!   `paramslayout`, `paramsparse`, `pkparse`.
+//! Oracle: determinism over pools × repetitions, write-A/read-B matrix for vk, pk, params,
+//! 4-way proof cross-verification, downsize = fresh setup.
+
+mod keys;
+mod params;
+mod rec;
+mod rel;
+mod ser;
+
+use mzkh::{
+    family::{sample_params, FamParams, GateKind, LookupKind},
+    Ctx,
+};
 
 fn main() {
-    let ctx = Ctx::from_args("C17");
+    let mut ctx = Ctx::from_args("C17");
+    assert!(ser::modulus_is_bls_scalar());
+    let (n_members, reps, kmax, all_pk, commit_cols) = match ctx.tier.as_str() {
+        "quick" => (5usize, 2usize, 6u32, false, 3usize),
+        "thorough" => (24, 4, 9, true, 64),
+        _ => (10, 3, 7, true, 4),
+    };
+    let every = FamParams {
+        n_adv0: 4,
+        n_adv1: 1,
+        unblinded: true,
+        n_committed: 1,
+        n_plain: 2,
+        gates: vec![GateKind::Mul, GateKind::LinRot, GateKind::Additive, GateKind::Chal],
+        lookups: vec![LookupKind::Range, LookupKind::Pair],
+        copies: true,
+        const_copies: true,
+        inst_copies: true,
+        steps: 6,
+        table_bits: 3,
+    };
+    let minimal = FamParams { copies: false, inst_copies: false, n_plain: 0, steps: 2, ..FamParams::default() };
+    let mut members: Vec<(FamParams, u64)> = vec![(every, 31), (minimal, 32), (FamParams::default(), 33)];
+    let mut rng = ctx.rng("family");
+    for i in 0..n_members {
+        members.push((sample_params(&mut rng), 5000 + ctx.seed * 100 + i as u64));
+    }
+    for (fp, seed) in &members {
+        let s = keys::fam_subject(fp, *seed);
+        ctx.count(&format!("family:k{}", s.k));
+        keys::determinism(&mut ctx, &s, reps);
+        keys::vk_bytes_cases(&mut ctx, &s);
+        keys::pk_bytes_case(&mut ctx, &s);
+        let (vks, pks) = keys::roundtrip_matrix(&mut ctx, &s);
+        keys::proof_matrix(&mut ctx, &s, &vks, &pks, all_pk);
+        keys::commit_cases(&mut ctx, &s, commit_cols);
+    }
+    let seed = ctx.seed;
+    params::params_cases(&mut ctx, kmax, 4242 + seed);
+    if !ctx.quick() {
+        params::params_cases(&mut ctx, 3, 77 + seed);
+    }
+    rel::relation_cases(&mut ctx);
     ctx.finish();
 }
